@@ -76,7 +76,16 @@ def gen_cases(ctx, n):
 
 
 def run(ctx):
-    fw.static_proofs(ctx, ['Properties/C07.v', 'Properties/C01_native.v'])
+    # T-gen: the constants the models hard-code are re-read from the current source (Tie/C01_tie.v proves them equal)
+    from .. import gen_facts_c01
+    facts_ok = True
+    try:
+        gen_facts_c01.write(fw.REPO)
+    except (gen_facts_c01.GenError, OSError, SyntaxError) as e:
+        fw.write_if_changed(fw.COQ / 'Gen' / 'Facts_C01.v', gen_facts_c01.stub(str(e)))
+        ctx.broken_tie('gen_facts_c01 (source translator failed closed)', str(e))
+        facts_ok = False
+    fw.static_proofs(ctx, ['Properties/C07.v', 'Properties/C01_native.v'], extra_targets=['Tie/C01_tie.vo'] if facts_ok else [])
     so = fw.build_fjcore(ctx)
     groups = gen_cases(ctx, ctx.n(700, 8000))
     cases = [c for g in groups for c in g]
